@@ -6,6 +6,7 @@ package main
 // use, so a mutating handler can never poison the harness's own inputs.
 
 import (
+	"fmt"
 	"sort"
 	"strings"
 )
@@ -89,6 +90,36 @@ func probeSuite(c Cfg) []Req {
 	}
 	_ = star
 	origins := append(append([]string{}, match...), miss...)
+	// literals of the tree under test (dict.go), three or so per configuration, chosen by a
+	// hash of the configuration so that the suite stays a function of it
+	var dictOrigins []string
+	if n := len(dict.any); n > 0 {
+		k := int(fnv32(c.String()) & 0x7fffffff)
+		methods = dedup(append(methods, dict.any[k%n], dict.any[(k/7)%n]))
+		hdrLists = append(hdrLists, []string{strings.ToLower(dict.any[(k/3)%n])}, []string{dict.any[(k/11)%n]})
+		if len(allowedL) > 0 {
+			hdrLists = append(hdrLists, []string{allowedL[0] + "," + strings.ToLower(dict.any[(k/13)%n])})
+		}
+		dictOrigins = append(dictOrigins, dict.any[(k/17)%n])
+		if h := dict.hosts; len(h) > 0 {
+			dictOrigins = append(dictOrigins, "https://"+h[k%len(h)])
+			if pt := dict.ports; len(pt) > 0 {
+				dictOrigins = append(dictOrigins, fmt.Sprintf("http://%s:%d", h[(k/5)%len(h)], pt[(k/3)%len(pt)]))
+			}
+		}
+		if pt := dict.ports; len(pt) > 0 && len(match) > 0 {
+			// a matching origin moved to a mined port
+			if i := strings.LastIndex(match[0], ":"); i > 5 && !strings.HasSuffix(match[0], "]") {
+				dictOrigins = append(dictOrigins, fmt.Sprintf("%s:%d", match[0][:i], pt[(k/19)%len(pt)]))
+			} else {
+				dictOrigins = append(dictOrigins, fmt.Sprintf("%s:%d", match[0], pt[(k/19)%len(pt)]))
+			}
+		}
+		if o := dict.origins; len(o) > 0 {
+			dictOrigins = append(dictOrigins, o[k%len(o)])
+		}
+	}
+	origins = append(origins, dictOrigins...)
 	origins = append(origins, "https://evil.test", "null", "https://", "HTTPS://EXAMPLE.COM", "",
 		"https://[::1", "https://a..b.test", "https://"+strings.Repeat("a", 400)+".test", "https://example.com:0", "https://example.com:65536", "https://example.com:080", "1https://example.com")
 	for oi, o := range origins {
@@ -191,4 +222,13 @@ func debugProbeK(c Cfg, k int) (Req, bool) {
 		k = -k
 	}
 	return ps[k%len(ps)], true
+}
+
+func fnv32(s string) uint32 {
+	h := uint32(2166136261)
+	for i := 0; i < len(s); i++ {
+		h ^= uint32(s[i])
+		h *= 16777619
+	}
+	return h
 }
